@@ -77,6 +77,15 @@ Theorem C17_decrease_floor :
 Proof. exact decrease_floor_dec. Qed.
 Print Assumptions C17_decrease_floor.
 
+(** The bound above is tight: a fractional minimum gas price is enforced through
+    its integer part (MinGasPrice.TruncateInt()), so the fee can end below the
+    decimal price by less than one unit: base 1, minimum 0.5, T = 10, d = 1,
+    g = 0 gives 0 (observation, reproduced on the real code by the corpus). *)
+Theorem C17_floor_fractional_min_refuted :
+  calc_base_fee frac_params 5 (Some 10) 0 = RVal 0 /\ of_int 0 < p_min_gas_price frac_params.
+Proof. exact floor_fractional_min_refuted. Qed.
+Print Assumptions C17_floor_fractional_min_refuted.
+
 (** Below target the fee does not rise, and stays non-negative. *)
 Theorem C17_decrease_le_base :
   forall base g T d m, 0 <= base -> m <= base -> 0 < T -> 0 < d -> 0 <= g < T ->
